@@ -35,7 +35,7 @@ PROPS = {
         verus=[('u_filter', [r'^Scanner::', r'^parse_', r'^is_unit_char$', r'^is_partial_date$', r'^as_date$', r'^Lexer::',
                              r'^LexerToken::', r'^Parser::']),
                ('u_weval', [r'^WildcardEq::eval$', r'^Ref::<PartialEq>::eq$']),
-               ('u_feval', [r'^(Or|And|Term|Parens|Has|Missing|Cmp)::eval$'])],
+               ('u_feval', [r'^(Filter|Or|And|Term|Parens|Has|Missing|Cmp)::eval$'])],
         kani=[],
         witness='filter',
         design_ref='DESIGN.md section 4, C09',
@@ -170,7 +170,7 @@ PROPS = {
     'C07': dict(
         title='Filter evaluation follows the Haystack filter semantics',
         verus=[('u_resolver', [r'^Dict::resolve_for$', r'^Path::', r'^lemma_walk_null_stays$', r'^Value::is_null$', r'^Grid::filter_all$', r'^Grid::filter$']),
-               ('u_feval', [r'^(Or|And|Term|Parens|Has|Missing|Cmp)::eval$', r'^lemma_all_terms_false$', r'^lemma_any_and_true$', r'^Value::has_value$', r'^ev_|^any_and$|^all_terms$'])],
+               ('u_feval', [r'^(Filter|Or|And|Term|Parens|Has|Missing|Cmp)::eval$', r'^lemma_all_terms_false$', r'^lemma_any_and_true$', r'^Value::has_value$', r'^ev_|^any_and$|^all_terms$'])],
         kani=[dict(harness='k_cmp_eq', klass='complete', schema='raw', family='filter-cmp:eq', target='filter::nodes::cmp_values(Eq)', timeout=400),
               dict(harness='k_cmp_ne', klass='complete', schema='raw', family='filter-cmp:ne', target='filter::nodes::cmp_values(NotEq)', timeout=400),
               dict(harness='k_cmp_lt', klass='complete', schema='raw', family='filter-cmp:lt', target='filter::nodes::cmp_values(LessThan)', timeout=400),
